@@ -17,7 +17,7 @@
 From Coq Require Import List ZArith Lia Bool Arith NArith.
 From Coq.Strings Require Import Byte.
 From Muduo Require Import C19_Model C19_Wire C19_WireProofs.
-From Muduo Require Import Base_Bytes Gen_Consts Gen_C18 C10_Model C10_Proofs C18_Model C18_StreamProofs C18_CodecProofs C18_HttpProofs C18_HttpRef C18_Proofs C18_EncModel C18_EncProofs C18_LiveProofs C18_HttpSrvModel C18_HttpSrvProofs C18_GenLink C18_RpcInstance.
+From Muduo Require Import Base_Bytes Gen_Consts Gen_C18 C10_Model C10_Proofs C18_Model C18_StreamProofs C18_CodecProofs C18_HttpProofs C18_HttpRef C18_HttpDecl C18_HttpPtr C18_Proofs C18_EncModel C18_EncProofs C18_LiveProofs C18_OldCodec C18_OldCodecProofs C18_HttpSrvModel C18_HttpSrvProofs C18_GenLink C18_RpcInstance.
 Import ListNotations.
 Local Open Scope Z_scope.
 
@@ -383,6 +383,145 @@ Theorem C18_rpctag_generated : map Z_of_byte rpctag = Gen_C18.RpcCodec_rpctag.
 Proof. exact rpctag_generated. Qed.
 Print Assumptions C18_rpctag_generated.
 
+(* ======================= the OLD codec: examples/protobuf/codec/codec.cc ====================== *)
+(* class ProtobufCodec (not ProtobufCodecLite): wire layout len | nameLen | typeName (nameLen bytes,
+   NUL-terminated by the encoder) | protobufData | checkSum = Adler-32 of nameLen, typeName and
+   protobufData (codec.h:17-24).  [ostep] (C18_OldCodec.v) is one iteration of the while loop of
+   ProtobufCodec::onMessage with ProtobufCodec::parse inlined, every read bounds-checked; the
+   message type is looked up by name: [create tn] = createMessage(typeName) != NULL, [parse tn data] =
+   message->ParseFromArray (both environment: arbitrary functions); kHeaderLen, kMinMessageLen,
+   kMaxMessageLen are regenerated from codec.h.  A fourth instance of the generic chunk-fed decoder. *)
+
+(* segmentation invariance: chunk by chunk = in one piece (events, unconsumed bytes, abandoned
+   flag); the loop never runs out of fuel *)
+Theorem C18_old_codec_seg_invariant :
+  forall (msg : Type) (create : list byte -> bool) (parse : list byte -> list byte -> option msg)
+         (chunks : list (list byte)),
+    ocodec_feed_all msg create parse ocodec_init chunks = ocodec_feed msg create parse ocodec_init (concat chunks) /\
+    d_oof (snd (ocodec_feed_all msg create parse ocodec_init chunks)) = false.
+Proof. exact (fun msg create parse chunks => conj (old_codec_seg_invariant msg create parse chunks) (old_codec_no_oof msg create parse chunks)). Qed.
+Print Assumptions C18_old_codec_seg_invariant.
+
+(* the chunk-fed literal decoder = the reference decoding [oref_decode] of the concatenation (greedy
+   split written from the struct comment of codec.h: list surgery, unsigned checksum comparison,
+   literal 64 MiB): messages, first error, unconsumed rest *)
+Theorem C18_old_codec_equals_reference :
+  forall (msg : Type) (create : list byte -> bool) (parse : list byte -> list byte -> option msg)
+         (chunks : list (list byte)),
+    let s := concat chunks in
+    ocodec_feed_all msg create parse ocodec_init chunks =
+    (let '(ms, e, rest) := oref_decode msg create parse (S (length s)) s in
+     (map CMsg ms ++ match e with Some x => [CErr x] | None => [] end,
+      mkD tt rest (match e with Some _ => true | None => false end) false)).
+Proof. exact old_codec_equals_reference. Qed.
+Print Assumptions C18_old_codec_equals_reference.
+
+(* no input makes a bounds-checked read of ProtobufCodec::onMessage / parse / asInt32 / the typeName
+   range / the data range fail; the loop terminates *)
+Theorem C18_old_codec_reads_in_bounds :
+  forall (msg : Type) (create : list byte -> bool) (parse : list byte -> list byte -> option msg) chunks,
+    ~ In CFault (fst (ocodec_feed_all msg create parse ocodec_init chunks)) /\
+    d_oof (snd (ocodec_feed_all msg create parse ocodec_init chunks)) = false.
+Proof. exact old_codec_reads_in_bounds. Qed.
+Print Assumptions C18_old_codec_reads_in_bounds.
+
+(* round trip with the encoder's wire format [oencode] (fillEmptyBuffer: nameLen = |typeName|+1, the
+   name with its NUL, the serialised message, the checksum, the length prepended): frames whose type
+   name is non-empty and known to the factory, whose payload the message type parses and which are
+   within the limit, cut into chunks in any way, are delivered exactly; everything is consumed *)
+Theorem C18_old_codec_roundtrip :
+  forall (msg : Type) (create : list byte -> bool) (parse : list byte -> list byte -> option msg)
+         (fs : list (list byte * list byte)) (ms : list msg) (chunks : list (list byte)),
+    Forall2 (fun f m => fst f <> [] /\ create (fst f) = true /\ parse (fst f) (snd f) = Some m /\
+                        ofits (fst f) (snd f)) fs ms ->
+    concat chunks = flat_map (fun f => oencode (fst f) (snd f)) fs ->
+    ocodec_feed_all msg create parse ocodec_init chunks = (map CMsg ms, mkD tt [] false false).
+Proof. exact old_codec_roundtrip. Qed.
+Print Assumptions C18_old_codec_roundtrip.
+
+(* rejection: valid frames followed by a head the reference calls bad, in any segmentation: exactly
+   the messages of the valid frames, then exactly that error; nothing of the bad head is consumed,
+   the stream is abandoned *)
+Theorem C18_old_codec_reject :
+  forall (msg : Type) (create : list byte -> bool) (parse : list byte -> list byte -> option msg)
+         fs ms t e chunks,
+    Forall2 (fun f m => fst f <> [] /\ create (fst f) = true /\ parse (fst f) (snd f) = Some m /\
+                        ofits (fst f) (snd f)) fs ms ->
+    oref_split msg create parse t = RBad msg e ->
+    concat chunks = flat_map (fun f => oencode (fst f) (snd f)) fs ++ t ->
+    ocodec_feed_all msg create parse ocodec_init chunks = (map CMsg ms ++ [CErr e], mkD tt t true false).
+Proof. exact old_codec_reject. Qed.
+Print Assumptions C18_old_codec_reject.
+
+(* ... and which heads are bad, class by class: length field < 10 or > 64 MiB (signed); trailer <>
+   Adler-32 of nameLen+typeName+protobufData; correct checksum but nameLen < 2 or nameLen > len - 8
+   (kInvalidNameLen, the class only this codec has); a well-formed frame whose type name the factory
+   does not know; one whose payload the message type rejects *)
+Theorem C18_old_codec_reject_classes :
+  forall (msg : Type) (create : list byte -> bool) (parse : list byte -> list byte -> option msg),
+  (forall t, (4 + 10 <= length t)%nat ->
+     (be_decode_signed (firstn 4 t) < 10 \/ 64 * 1024 * 1024 < be_decode_signed (firstn 4 t)) ->
+     oref_split msg create parse t = RBad msg kInvalidLength) /\
+  (forall cov ck rest, length ck = 4%nat -> (6 <= length cov)%nat -> Z.of_nat (length cov) + 4 <= 64 * 1024 * 1024 ->
+     be_decode ck <> adler32 cov ->
+     oref_split msg create parse (be_encode 4 (Z.of_nat (length cov) + 4) ++ cov ++ ck ++ rest) = RBad msg kCheckSumError) /\
+  (forall cov rest, (6 <= length cov)%nat -> Z.of_nat (length cov) + 4 <= 64 * 1024 * 1024 ->
+     (be_decode_signed (firstn 4 cov) < 2 \/ Z.of_nat (length cov) - 4 < be_decode_signed (firstn 4 cov)) ->
+     oref_split msg create parse (be_encode 4 (Z.of_nat (length cov) + 4) ++ cov ++ be_encode 4 (adler32 cov) ++ rest) =
+     RBad msg kInvalidNameLen) /\
+  (forall tn data rest, tn <> [] -> ofits tn data -> create tn = false ->
+     oref_split msg create parse (oencode tn data ++ rest) = RBad msg kUnknownMessageType) /\
+  (forall tn data rest, tn <> [] -> ofits tn data -> create tn = true -> parse tn data = None ->
+     oref_split msg create parse (oencode tn data ++ rest) = RBad msg kParseError).
+Proof.
+  exact (fun msg create parse =>
+    conj (obad_length msg create parse) (conj (obad_checksum msg create parse) (conj (obad_namelen msg create parse)
+      (conj (obad_type msg create parse) (obad_payload msg create parse))))).
+Qed.
+Print Assumptions C18_old_codec_reject_classes.
+
+(* every comparison of ProtobufCodec::onMessage / parse, the offsets and lengths handed to parse,
+   asInt32, adler32, the typeName range, retrieve, and the two asserts of fillEmptyBuffer, as
+   translated from the clang AST of codec.cc, are the model's; the three constants are codec.h's *)
+Theorem C18_gen_old_codec : forall (b : list byte) (len nameLen P off e a c bs : Z) (r : nat) (mok : bool),
+  old_onMessage_while0 okHeaderLen okMinMessageLen (Z.of_nat (length b))
+    = (Z.of_nat (length b) >=? okMinMessageLen + okHeaderLen) /\
+  old_onMessage_if0 okMaxMessageLen okMinMessageLen len = olength_bad len /\
+  (old_onMessage_cmp0 okMaxMessageLen len || old_onMessage_cmp1 okMinMessageLen len)%bool = olength_bad len /\
+  old_onMessage_if1 okHeaderLen len (Z.of_nat (length b)) = (Z.of_nat (length b) >=? len + okHeaderLen) /\
+  old_onMessage_cmp2 okHeaderLen len (Z.of_nat (length b)) = (Z.of_nat (length b) >=? len + okHeaderLen) /\
+  old_onMessage_call0_parse_arg0 okHeaderLen P - P = okHeaderLen /\
+  old_onMessage_call0_parse_arg1 len = len /\
+  old_onMessage_if2 e 0 mok = ((e =? 0) && mok)%bool /\
+  old_onMessage_cmp3 e 0 = (e =? 0) /\
+  old_onMessage_call1_retrieve okHeaderLen len = okHeaderLen + len /\
+  old_onMessage_let_len len = len /\
+  (let buf := P + off in
+   old_parse_call0_asInt32 buf okHeaderLen len - P = off + len - okHeaderLen /\
+   old_parse_call1_adler32_arg0 buf = buf /\
+   old_parse_call1_adler32_arg1 okHeaderLen len = len - okHeaderLen /\
+   old_parse_if0 a c = (a =? c) /\ old_parse_cmp0 a c = (a =? c) /\
+   old_parse_call2_asInt32 buf = buf /\
+   old_parse_if1 okHeaderLen len nameLen = ((nameLen >=? 2) && (nameLen <=? len - 2 * okHeaderLen))%bool /\
+   (old_parse_cmp1 nameLen && old_parse_cmp2 okHeaderLen len nameLen)%bool
+     = ((nameLen >=? 2) && (nameLen <=? len - 2 * okHeaderLen))%bool /\
+   old_parse_typeName_arg0 buf okHeaderLen - P = off + okHeaderLen /\
+   old_parse_typeName_arg1 buf okHeaderLen nameLen - old_parse_typeName_arg0 buf okHeaderLen = nameLen - 1 /\
+   old_parse_if2 mok = mok /\
+   old_parse_let_data buf okHeaderLen nameLen - P = off + okHeaderLen + nameLen /\
+   old_parse_let_dataLen okHeaderLen len nameLen = len - nameLen - 2 * okHeaderLen) /\
+  old_fillEmptyBuffer_assert0 (Z.of_nat r) = (r =? 0)%nat /\
+  old_fillEmptyBuffer_assert1 bs nameLen (Z.of_nat r) = (Z.of_nat r =? 4 + nameLen + bs + 4).
+Proof. exact gen_old_codec. Qed.
+Print Assumptions C18_gen_old_codec.
+
+Theorem C18_old_codec_constants :
+  okHeaderLen = 4 /\ okMinMessageLen = 2 * okHeaderLen + 2 /\ okMaxMessageLen = 64 * 1024 * 1024 /\
+  okHeaderLen = Gen_C18.ProtobufCodec_kHeaderLen /\ okMinMessageLen = Gen_C18.ProtobufCodec_kMinMessageLen /\
+  okMaxMessageLen = Gen_C18.ProtobufCodec_kMaxMessageLen.
+Proof. exact (conj okHeaderLen_val (conj okMin_derivation (conj okMaxMessageLen_val (conj eq_refl (conj eq_refl eq_refl))))). Qed.
+Print Assumptions C18_old_codec_constants.
+
 (* ======================= HTTP: headers, server loop, responses ================================ *)
 (* addHeader: the field name is the bytes before the colon (not trimmed); the value is what follows,
    with C-locale white space removed at both ends and nothing else; assigning a field again
@@ -414,6 +553,67 @@ Theorem C18_http_server_requests_prefix :
     (In SAssert (concat ess) -> d_abandoned di = true).
 Proof. exact server_requests_prefix. Qed.
 Print Assumptions C18_http_server_requests_prefix.
+
+(* An INDEPENDENT request line (C18_HttpDecl.v): [ref_http] above shares processRequestLine with the
+   parser; [ref_request_line] does not use any function of the parser model - the line is cut at
+   EVERY space into fields; it is a request line iff there are exactly three fields, the first one of
+   the five method names (ASCII strings, standard list equality), the third "HTTP/1.0" or "HTTP/1.1";
+   path = the target up to its first '?', query = from it (the prior request's query if there is
+   none; the headers are the prior request's).  The parser's processRequestLine IS that function,
+   for every line and every prior request (accepting and rejecting alike), and the chunk-fed literal
+   parser equals the reference built on it, on every stream in every segmentation. *)
+Theorem C18_http_request_line_declarative :
+  (forall line r0, processRequestLine line r0 = ref_request_line line r0) /\
+  (forall chunks, http_feed_all http_init chunks = ref_http_decl (concat chunks)).
+Proof. exact (conj ref_request_line_eq http_equals_decl_reference). Qed.
+Print Assumptions C18_http_request_line_declarative.
+
+Theorem C18_http_request_line_decl_defs : forall line r0 x t,
+  ref_request_line line r0 =
+    (match fields line with
+     | [m; tg; v] =>
+         match method_named m, version_named v with
+         | Some k, Some ver =>
+             Some (mkReq k ver (before_q tg) (match from_q tg with Some q => q | None => q_query r0 end) (q_headers r0))
+         | _, _ => None
+         end
+     | _ => None
+     end) /\
+  fields [] = [[]] /\
+  fields (x :: t) = (if Byte.byte_eq_dec x b_SP then [] :: fields t
+                     else match fields t with f :: fs => (x :: f) :: fs | [] => [[x]] end) /\
+  before_q [] = [] /\ before_q (x :: t) = (if Byte.byte_eq_dec x b_Q then [] else x :: before_q t) /\
+  from_q [] = None /\ from_q (x :: t) = (if Byte.byte_eq_dec x b_Q then Some (x :: t) else from_q t) /\
+  (forall m, method_named m =
+     if same_bytes m ["G"; "E"; "T"]%byte then Some kGet
+     else if same_bytes m ["P"; "O"; "S"; "T"]%byte then Some kPost
+     else if same_bytes m ["H"; "E"; "A"; "D"]%byte then Some kHead
+     else if same_bytes m ["P"; "U"; "T"]%byte then Some kPut
+     else if same_bytes m ["D"; "E"; "L"; "E"; "T"; "E"]%byte then Some kDelete
+     else None) /\
+  (forall v, version_named v =
+     if same_bytes v ["H"; "T"; "T"; "P"; "/"; "1"; "."; "1"]%byte then Some kHttp11
+     else if same_bytes v ["H"; "T"; "T"; "P"; "/"; "1"; "."; "0"]%byte then Some kHttp10
+     else None) /\
+  (forall a b, same_bytes a b = true <-> a = b).
+Proof.
+  exact (fun line r0 x t => conj eq_refl (conj eq_refl (conj eq_refl (conj eq_refl (conj eq_refl (conj eq_refl (conj eq_refl
+    (conj (fun m => eq_refl) (conj (fun v => eq_refl) same_bytes_true))))))))).
+Qed.
+Print Assumptions C18_http_request_line_decl_defs.
+
+(* "No read outside the received bytes" for the request-line parser (C18_HttpPtr.v): processRequestLine
+   modelled at the level of its POINTERS - begin = offset 0, end = the length of the line, every
+   dereference (the two std::find for SP, the one for '?', the copies of setMethod / setPath / setQuery,
+   std::equal(start, end-1, "HTTP/1.") on the line AND on the 8-byte literal, *(end-1)) bounds-checked,
+   a failed check = PF - never fails a check and returns exactly the list-level model's result, for
+   every line and prior request.  The comparison in front of std::equal is the REGENERATED fact
+   processRequestLine_cmp3 (`end-start == 8` in the current HttpContext.cc); with `>= 8` the theorem is
+   false (C18_ex_http_ge8_overreads: std::equal walks off the literal - the mutant ASan caught). *)
+Theorem C18_http_request_line_reads_in_bounds : forall line r,
+  p_processRequestLine Gen_C18.processRequestLine_cmp3 line r = PV (processRequestLine line r).
+Proof. exact p_processRequestLine_ok. Qed.
+Print Assumptions C18_http_request_line_reads_in_bounds.
 
 (* FINDING (http-bytes-after-rejected-request-line): HttpServer answers a rejected request line
    with 400 + shutdown() but neither resets the context nor stops reading.  When the rejected line
@@ -575,6 +775,19 @@ Example C18_ex_http_bad :
     [[x47; x45; x54; x20; x2f; x20; x48; x54; x54; x50; x2f; x31; x2e; x32; x0d; x0a]]) = [HBad].
 Proof. vm_compute. reflexivity. Qed.
 
+(* the independent request line on a concrete line; the over-read of the `>= 8` mutant *)
+Example C18_ex_http_decl :
+  ref_request_line [x47; x45; x54; x20; x2f; x61; x3f; x62; x20; x48; x54; x54; x50; x2f; x31; x2e; x31] empty_request =
+  Some (mkReq kGet kHttp11 [x2f; x61] [x3f; x62] []) /\
+  ref_request_line [x47; x45; x54; x20; x20; x48; x54; x54; x50; x2f; x31; x2e; x30] empty_request =
+  Some (mkReq kGet kHttp10 [] [] []) /\
+  ref_request_line [x47; x45; x54; x20; x2f; x20; x48; x54; x54; x50; x2f; x31; x2e; x31; x20] empty_request = None.
+Proof. vm_compute. repeat split. Qed.
+Example C18_ex_http_ge8_overreads :
+  p_processRequestLine (fun e s => (e - s >=? 8)%Z)
+    ([x47; x45; x54; x20; x2f; x20] ++ s_HTTP1dot ++ [x00; x00; x31]) empty_request = PF.
+Proof. exact p_processRequestLine_ge8_overreads. Qed.
+
 (* ---- non-vacuity of the additions ------------------------------------------------------------ *)
 (* fillEmptyBuffer over the Buffer model produces the 17 bytes of C18_ex_encode, leaving 4
    prependable bytes *)
@@ -600,6 +813,26 @@ Example C18_ex_late_reads :
   late_reads _ raw_parse tagXYZ [] [f ++ bad; hello; []] = 2%nat /\
   ref_err _ raw_parse tagXYZ (f ++ bad) = Some kCheckSumError /\ ref_err _ raw_parse tagXYZ f = None.
 Proof. vm_compute. repeat split. Qed.
+
+(* the OLD codec: type name "T", payload "hello": the 19 bytes the real fillEmptyBuffer layout gives
+   (bin/check compares with the real ProtobufCodec); two frames cut inside nameLen and inside the
+   checksum; a frame whose nameLen field says 1 (correct checksum): kInvalidNameLen *)
+Definition old_create (tn : list byte) : bool := bytes_eqb tn [x54].
+Definition old_parse (_ : list byte) (d : list byte) : option (list byte) := Some d.
+Example C18_ex_old_encode :
+  oencode [x54] hello =
+  [x00; x00; x00; x0f; x00; x00; x00; x02; x54; x00; x68; x65; x6c; x6c; x6f] ++ be_encode 4 (adler32 ([x00; x00; x00; x02; x54; x00] ++ hello)).
+Proof. vm_compute. reflexivity. Qed.
+Example C18_ex_old_roundtrip :
+  let s := oencode [x54] hello ++ oencode [x54] [] in
+  ocodec_feed_all _ old_create old_parse ocodec_init [firstn 6 s; firstn 12 (skipn 6 s); skipn 18 s] =
+  ([CMsg hello; CMsg []], mkD tt [] false false).
+Proof. vm_compute. reflexivity. Qed.
+Example C18_ex_old_namelen :
+  let cov := [x00; x00; x00; x01; x54; x00] ++ hello in
+  let f := be_encode 4 (Z.of_nat (length cov) + 4) ++ cov ++ be_encode 4 (adler32 cov) in
+  ocodec_feed_all _ old_create old_parse ocodec_init [f] = ([CErr kInvalidNameLen], mkD tt f true false).
+Proof. vm_compute. reflexivity. Qed.
 
 Example C18_ex_rpc_sendable : rpc_sendable ex_rpc.
 Proof. exact ex_rpc_sendable. Qed.
